@@ -166,8 +166,13 @@ class C05(BridgeProp):
             dg.insert(k, dict(dg[k - 1]))
         for k in range(11, len(dg), 41):
             dg.insert(k, {"do": "dgram", "p": dg[k]["p"], "d": rdev(rng, name=cut_name(rng))})
-        for k in range(0, len(dg), 100):
-            out.append(wrap(PORTS, dg[k:k + 100]))
+        for n, k in enumerate(range(0, len(dg), 100)):
+            sc = wrap(PORTS, dg[k:k + 100])
+            if n % 4 == 1:      # a bridge that was used before: started, stopped and started again ...
+                sc["steps"] = [{"do": "start"}, {"do": "stop"}, {"do": "cycle"}] + sc["steps"]
+            elif n % 4 == 3:    # ... or left through the context manager once
+                sc["steps"] = [{"do": "enter"}, {"do": "leave"}, {"do": "cycle"}] + sc["steps"]
+            out.append(sc)
         return out
 
     def owns(self, clause):
